@@ -216,6 +216,21 @@ Record addr_result := mkAR {
 
 Definition size_t_of_int (n : Z) : Z := n mod 2 ^ 64.
 
+(* the part after ares_parse_into_addrinfo succeeded or reported no data *)
+Definition addr_reply_tail (family st1 : Z) (ai : addrinfo) (want_host arr_given : bool)
+           (arr_len req : Z) (naddr0 : option Z) : outcome addr_result :=
+  do hres <- (if want_host
+              then do r <- addrinfo2hostent ai family None;
+                   Ok (fst r, match snd r with Some h => HSome h | None => HNull end)
+              else Ok (st1, HUntouched));
+  let '(st2, hout) := hres in
+  if want_host && negb (st2 =? ARES_SUCCESS) && negb (st2 =? ARES_ENODATA)
+  then Ok (mkAR (compat st2) hout naddr0 [])
+  else if arr_given && negb (req =? 0) then
+    do r <- addrinfo2addrttl ai family req true arr_len true;
+    Ok (mkAR (compat st2) hout (Some (to_int (Z.of_nat (length (snd r))))) (snd r))
+  else Ok (mkAR (compat st2) hout naddr0 []).
+
 Definition parse_addr_reply (family : Z) (alen_neg : bool) (p : parsed) (want_host : bool)
            (arr_given : bool) (arr_len : Z) (naddrttls : option Z) : outcome addr_result :=
   if alen_neg then Ok (mkAR ARES_EBADRESP HUntouched naddrttls [])
@@ -228,18 +243,7 @@ Definition parse_addr_reply (family : Z) (alen_neg : bool) (p : parsed) (want_ho
       let '(st1, ai) := parse_into_addrinfo rec false 0 ai_empty in
       if negb (st1 =? ARES_SUCCESS) && negb (st1 =? ARES_ENODATA)
       then Ok (mkAR (compat st1) HUntouched naddr0 [])
-      else
-        do hres <- (if want_host
-                    then do r <- addrinfo2hostent ai family None;
-                         Ok (fst r, match snd r with Some h => HSome h | None => HNull end)
-                    else Ok (st1, HUntouched));
-        let '(st2, hout) := hres in
-        if want_host && negb (st2 =? ARES_SUCCESS) && negb (st2 =? ARES_ENODATA)
-        then Ok (mkAR (compat st2) hout naddr0 [])
-        else if arr_given && negb (req =? 0) then
-          do r <- addrinfo2addrttl ai family req true arr_len true;
-          Ok (mkAR (compat st2) hout (Some (to_int (Z.of_nat (length (snd r))))) (snd r))
-        else Ok (mkAR (compat st2) hout naddr0 [])
+      else addr_reply_tail family st1 ai want_host arr_given arr_len req naddr0
     end.
 
 (* ------------------------------------------------------------------------------------ *)
